@@ -46,7 +46,9 @@ LOOK_MAXLEN = {"quick": 2, "thorough": 4}
 BADS = [("garbage", "x\n"), ("unknown-command", "1z\n"), ("non-numeric-range", "1,a\n"), ("no-address", "a\n"),
         ("negative-address", "-1d\n"), ("blank-before-command", "1 d\n"), ("range-on-append", "1,2a\n"),
         # beyond DESIGN.md's seven: nothing may follow the command letter (a regex that lost its "$" accepts it)
-        ("trailing-garbage", "1dx\n")]
+        ("trailing-garbage", "1dx\n"),
+        # white space or a carriage return around an otherwise valid command is not part of the syntax
+        ("trailing-cr", "1d\r\n"), ("trailing-blank", "1d \n"), ("leading-blank", " 1d\n"), ("trailing-cr-append", "1a\r\n")]
 MAXLEN = {"quick": 4, "thorough": 7}
 EXT_MAXLEN = {"quick": 3, "thorough": 5}
 CORRUPT_MAXLEN = {"quick": 3, "thorough": 5}
@@ -450,6 +452,9 @@ def _run_old(part, u, tier, seed):
                         run(dcase, "rejected:%s@%s-command:%s" % (dcase["what"], "first" if k == 0 else "later", form), k > 0)
                         part.extra["corrupted or truncated scripts"] += 1
                         via = KINDS if tiny else KINDS_FEW
+                        if any("\r" in l for l in dcase["script"]):
+                            # a text stream would translate the carriage return away before the library sees it
+                            via = [k for k in via if k not in ("stream", "file")]
                         run(dict(dcase, via=via), "other input kinds (%s): rejected:%s@%s-command:%s" % (
                             ", ".join(via), dcase["what"], "first" if k == 0 else "later", form), k > 0)
                         part.extra["corrupted or truncated scripts x other input kinds"] += len(via)
